@@ -228,9 +228,14 @@ def atom(e: ast.AST, aliases=None) -> tuple[str, bool]:
     """canonical (key, polarity) of an atomic test"""
     e = subst(e, aliases or {})
     pol = True
-    while isinstance(e, ast.UnaryOp) and isinstance(e.op, ast.Not):
-        e = e.operand
-        pol = not pol
+    while True:
+        if isinstance(e, ast.UnaryOp) and isinstance(e.op, ast.Not):
+            e = e.operand
+            pol = not pol
+        elif isinstance(e, ast.Call) and isinstance(e.func, ast.Name) and e.func.id == "bool" and len(e.args) == 1 and not e.keywords:
+            e = e.args[0]            # `bool(x)` is the truth value of x
+        else:
+            break
     if isinstance(e, ast.Compare) and len(e.ops) == 1:
         l, op, r = e.left, e.ops[0], e.comparators[0]
         # emptiness tests written with len(): `len(x) == 0` is `not x`, `len(x) > 0` / `!= 0` / `>= 1` is `x`
@@ -328,7 +333,25 @@ def _fact_info(key: str):
         return frozenset(), frozenset(), False
     names = frozenset(x.id for x in ast.walk(t) if isinstance(x, ast.Name))
     attrs = frozenset(x.attr for x in ast.walk(t) if isinstance(x, ast.Attribute))
+    for pk, extra in DEFINED_ATTRS.items():
+        if pk in key:
+            attrs = attrs | extra       # a defined predicate dies with the fields it is made of
     return names, attrs, ("self." in key)
+
+
+# Predicates the repository defines as a pure conjunction over fields (a one-expression property): a path that established the
+# conjuncts written out knows the predicate, and the other way round the rules can ask for the predicate whether the code calls the
+# property or spells the conjunction (a maintainer inlining the property changes nothing).  Each conjunct lists its accepted spellings.
+# The definition is checked against the code by C04/R04-e (truth table) whenever the property exists.
+DEFINED = {
+    "self._parent_cancellation_is_visible_to_us": [
+        [("self._parent_scope is None", False)],
+        [("self.shield", False), ("self._shield", False)],
+        [("self._parent_scope._effectively_cancelled", True)],
+    ],
+}
+DEFINED_ATTRS = {k: frozenset(x.attr for conj in v for (lit, _) in conj for x in ast.walk(ast.parse(lit, mode="eval")) if isinstance(x, ast.Attribute))
+                 for k, v in DEFINED.items()}
 
 
 def _close(facts: set) -> frozenset | None:
@@ -340,6 +363,13 @@ def _close(facts: set) -> frozenset | None:
         elif not k.endswith(" is None") and p and " " not in k:
             add.add((k + " is None", False))
     facts = facts | add
+    for pk, conj in DEFINED.items():
+        if (pk, True) in facts or (pk, False) in facts:
+            continue
+        if all(any(lit in facts for lit in alts) for alts in conj):
+            facts = facts | {(pk, True)}
+        elif any((k, not p) in facts for alts in conj for (k, p) in alts):
+            facts = facts | {(pk, False)}
     for k, p in facts:
         if p and (k, False) in facts:
             return None
@@ -810,9 +840,12 @@ class Explorer:
                         # EAFP emptiness: `q.popleft()` / `q.pop()` / `q.popitem(...)` / `q[0]` raising means q is empty
                         em = self._empty_on_raise(node, cls)
                         if em:
+                            if (em, True) in facts:
+                                continue        # the container is known to be non-empty here: this take cannot raise
                             f2c = _close(set(f2) | {(em, False)})
-                            if f2c is not None:
-                                f2 = f2c
+                            if f2c is None:
+                                continue
+                            f2 = f2c
                     cur = next((v for (k, v) in f2 if k == EXC), None)
                     if kind == "reraise":
                         if cur is not None and cur != cls:
